@@ -215,6 +215,18 @@ CHECKS = {
    note="bounded: <= 3/4 tokens exhaustively, trees to depth 4 randomly; floating-point folding is done by the harness (TLA+ has no "
         "IEEE arithmetic); !timestamp-tagged sexagesimals are not generated; " + TRUST,
    technique="TLA+ model (Robotics.tla acceptor -> evaluation plan) checked by TLC + TLC-generated token sequences replayed into the real evaluator + TLC trace validation of results"),
+ "C01": dict(
+   category="model_checking",
+   text="Progress: MC_Totality composes the document generator with the LiveEvents pump and checks, with TLC, a strictly decreasing "
+        "measure per pump step and termination under weak fairness. Outcome contract: Totality.tla declares the product of entry "
+        "points x target types x option vectors per input and what a run record may contain; TLC enumerates all short strings over "
+        "the YAML indicator alphabet; the harness runs those, a mutated corpus and deep / wide inputs through every call of the "
+        "product in child processes (8 MiB stack, address-space limit, per-call watchdog), rendering every error; the TLA+ trace "
+        "validator checks each record and that no call of the product is missing.",
+   design_ref="DESIGN.md section 4 C01",
+   note="bounded: token strings <= 2/3, nesting to 20 000 / 1 000 000; hang = no return within 20 s; one known finding (reader input "
+        "ending inside a % directive never returns, in the parser dependency); " + TRUST,
+   technique="TLA+ model (LiveEvents pump progress, Totality outcome contract) checked by TLC + TLC-enumerated inputs replayed into every entry point in watchdogged child processes + TLC trace validation of run records"),
  "C15": dict(
    category="model_checking",
    text="AnchorStore.tla's call-history part models the thread-local state (context stack, store, in-progress set) under nested "
